@@ -130,6 +130,15 @@ META['C12'] = dict(
         "after each kill the record (decoded) and the next request served by a fresh process are compared with the model's prediction and with reference runs. Holds since one fix: commit (temp file + fsync + rename)."),
   note=("Trusted: Lean kernel + standard axioms; the operation-level crash model (process death at system-call boundaries; rename atomic); strace-based injection and the harness's call abstraction; CBOR as a parameter. Power-loss durability beyond fsync ordering is not modelled. gdbm/pg backends are out of scope of C12."))
 
+META['C19'] = dict(
+  text=("PARTIAL. Kernel-checked: for ANY step function over shared immutable data and private per-session state, every interleaving of the sessions' requests gives each session exactly the transcript and final state it gets alone (sessions_non_interference, by induction over the schedule), "
+        "instantiated with the engine model (engine_sessions_independent); on a heap-and-slice model of Go slices the clipped append the VM uses since the fix: commit never changes what any existing slice reads (clippedAppend_frame) and every interleaving of appends leaves each session's pending code buffer exactly what its own appends made it (buffers_non_interference), "
+        "whereas the plain append lets two sessions overwrite each other's code (plain_append_interferes, kernel-evaluated; the defect was reproduced on the real engine: wrong pages and data races). "
+        "Tie: the slice model is compared with real Go slices op by op; the reviewed inventory of process-wide state and the form of every append in vm/runner.go are regenerated facts pinned by #guard; "
+        "the real engines of 2..16 sessions sharing one application (bytecode slices with and without spare capacity; long-lived, per-request over private mem stores, per-request over one fs directory) run concurrently for many rounds under the race detector, "
+        "transcripts compared with the sequential ones and with the Lean engine model's, race reports attributed per case."),
+  note=("Trusted: Lean kernel + standard axioms; engine model; slice model (sampled agreement with Go); the go/ast inventory and its review; the Go race detector and the schedules it happened to see. Interleavings at the memory-model level are NOT proved (partial)."))
+
 NOT_APPLICABLE = {
 
 
@@ -137,5 +146,5 @@ NOT_APPLICABLE = {
  'C09': 'not claimed yet: under construction',
 
 
- 'C19': 'not claimed yet: under construction',
+
 }
